@@ -149,6 +149,14 @@ Section Apps.
     rewrite IH. reflexivity.
   Qed.
 
+  Lemma result_map_t_perm ex fuel tab : forall st,
+    result_map_t add_from pinned wf ex fuel tab st = result_map_t add_from pinned wf' ex fuel tab st.
+  Proof.
+    induction tab as [|[r e] tab IH]; intros st; cbn [result_map_t]; [reflexivity|].
+    rewrite w2t_perm. destruct (w2t add_from pinned wf' ex fuel r st) as [[n st1]|]; [|reflexivity].
+    rewrite IH. reflexivity.
+  Qed.
+
   Theorem add_workflow_any_tool_order passthrough :
     add_workflow add_from add_from_r pinned passthrough wf =
     add_workflow add_from add_from_r pinned passthrough wf'.
@@ -160,6 +168,9 @@ Section Apps.
     rewrite w2t_perm.
     destruct (w2t add_from pinned wf' (e_tab E1) (wf_fuel wf) tg g_empty) as [[res st1]|]; [|reflexivity].
     destruct (indir_loop add_from add_from_r pinned (e_ind E1) st1) as [st2|]; [|reflexivity].
-    rewrite inputs_loop_perm. reflexivity.
+    rewrite inputs_loop_perm.
+    destruct (inputs_loop add_from pinned wf' (e_tab E1) (wf_fuel wf) (w_srcs wf) st2) as [[ins st3]|];
+      [|reflexivity].
+    rewrite result_map_t_perm. reflexivity.
   Qed.
 End Apps.
